@@ -422,3 +422,16 @@ M('c11-shorthand-field', 'C11', [(PA, "        if not value:\n          value = 
 M('c11-implication-flat', 'C11', [(PA, "  conjuncts += [NegationTree(consequence_str, EnsureConjunction(consequence))]", "  conjuncts += [EnsureConjunction(consequence)]")], 'C11-R2')
 M('c11-head-value-shape', 'C11', [(PA, "        'field': 'logica_value',\n        'value': {'expression': ParseExpression(expression_str)}\n    })", "        'field': 'logica_value',\n        'value': {'expr': ParseExpression(expression_str)}\n    })")], 'C11-R1')
 T('c11-twin-library-layout', 'C11', [('compiler/dialect_libraries/trino_library.py', "`=`(left:, right:) = right :- left == right;", "`=`(left:, right:) = right :-\n    left == right;  # assignment operator")])
+
+# ---------------------------------------------------------------- C12
+M('c12-dead-prefix-loop', 'C12', [(PA, "      assert idx >= -len(parts), (", "      assert idx > 0, (")], 'C12-R1')
+M('c12-prefix-skips-root', 'C12', [(PA, "      assert idx >= -len(parts), (", "      assert idx > -len(parts), (")], 'C12-R1')
+M('c12-marker-late', 'C12', [(PA, "  parsed_imports[file_import_str] = None\n  if isinstance(import_root, str):", "  if isinstance(import_root, str):")], 'C12-R2')
+M('c12-marker-not-replaced', 'C12', [(PA, "  parsed_imports[file_import_str] = parsed_file\n  return parsed_file", "  return parsed_file")], 'C12-R2')
+M('c12-circular-silent', 'C12', [(PA, "    if parsed_imports[file_import_str] is None:\n      raise ParsingException(\n          'Circular imports", "    if parsed_imports[file_import_str] is None and False:\n      raise ParsingException(\n          'Circular imports")], 'C12-R2')
+M('c12-made-not-renamed', 'C12', [(PA, "    for p in DefinedPredicates(rules) | MadePredicates(rules):\n      if p[0] != '@' and p != '++?':", "    for p in DefinedPredicates(rules):\n      if p[0] != '@' and p != '++?':")], 'C12-R3')
+M('c12-import-own-prefix', 'C12', [(PA, "                                   import_prefix + imported_predicate_name)\n    if (import_prefix +", "                                   this_file_prefix + imported_predicate_name)\n    if (import_prefix +")], 'C12-R3')
+M('c12-unused-import-ok', 'C12', [(PA, "    if not rename_count:\n      raise ParsingException(", "    if not rename_count and False:\n      raise ParsingException(")], 'C12-R4')
+M('c12-override-accepted', 'C12', [(PA, "      if any(p[0] != '@' for p in defined_predicates & new_predicates):\n        raise ParsingException(", "      if any(p[0] != '@' for p in defined_predicates & new_predicates):\n        print(")], 'C12-R4')
+T('c12-twin-guard-form', 'C12', [(PA, "      assert idx >= -len(parts), (", "      assert -idx <= len(parts), (")])
+T('c12-twin-positive-index', 'C12', [(PA, "    idx = -1\n    this_file_prefix = parts[idx].capitalize() + '_'", "    idx = -1\n    unused_marker = 0\n    this_file_prefix = parts[idx].capitalize() + '_'")])
